@@ -167,13 +167,21 @@ type speller struct {
 
 func (sp *speller) scalar(n *yaml.Node, key bool) (string, error) {
 	tag := n.ShortTag()
+	if tag == "!!timestamp" && n.Style == 0 {
+		// OpenAPI documents are YAML 1.2 with the JSON-schema tag set: there is no timestamp
+		// type, a plain date is the string of its text and may be quoted like any string
+		tag = "!!str"
+		if sp.r.JSON == "none" && (key || sp.r.Str == "plain") {
+			return n.Value, nil
+		}
+	}
 	switch tag {
 	case "!!str":
 		style := sp.r.Str
 		if key {
 			style = sp.r.Key
 		}
-		if n.Style == 0 && ambiguous11(n.Value) {
+		if n.Style == 0 && n.ShortTag() == "!!str" && ambiguous11(n.Value) {
 			// a plain scalar of the original that the two resolvers in ogen's pipeline read
 			// differently (`N`, `yes`, ...): quoting it would change what some reader sees, so it
 			// is kept as it is
@@ -194,7 +202,7 @@ func (sp *speller) scalar(n *yaml.Node, key bool) (string, error) {
 			return "'" + strings.ReplaceAll(n.Value, "'", "''") + "'", nil
 		}
 		return doubleQuoted(n.Value), nil
-	case "!!int", "!!float", "!!bool", "!!null", "!!timestamp":
+	case "!!int", "!!float", "!!bool", "!!null":
 		if n.Style&(yaml.SingleQuotedStyle|yaml.DoubleQuotedStyle|yaml.LiteralStyle|yaml.FoldedStyle|yaml.TaggedStyle) != 0 {
 			return "", errNA("explicitly tagged scalar")
 		}
@@ -205,10 +213,6 @@ func (sp *speller) scalar(n *yaml.Node, key bool) (string, error) {
 			switch {
 			case tag == "!!null" && n.Value == "null", tag == "!!bool" && (n.Value == "true" || n.Value == "false"):
 			case (tag == "!!int" || tag == "!!float") && jsonNumber.MatchString(n.Value):
-			case tag == "!!timestamp":
-				// JSON has no timestamps: the JSON spelling of this datum is a string, which is
-				// other data
-				return "", errNA("timestamp scalar has no JSON spelling")
 			default:
 				return "", errNA("scalar " + strconv.Quote(n.Value) + " is not a JSON literal")
 			}
@@ -404,7 +408,14 @@ func sameData(a, b *yaml.Node) bool {
 	}
 	switch a.Kind {
 	case yaml.ScalarNode:
-		if a.ShortTag() != b.ShortTag() {
+		ta, tb := a.ShortTag(), b.ShortTag()
+		if ta == "!!timestamp" {
+			ta = "!!str"
+		}
+		if tb == "!!timestamp" {
+			tb = "!!str"
+		}
+		if ta != tb {
 			return false
 		}
 		if a.ShortTag() == "!!null" {
